@@ -223,6 +223,7 @@ fn compile_testcase(
         set_consistent!(keep_crlf);
         set_consistent!(output_stream);
         set_consistent!(skip_document_code);
+        set_consistent!(strip_ansi_escaping);
         set_consistent!(wait);
         if !config.environment.is_empty() && config.environment != testcase.config.environment {
             return Err(ExecutionError::failed(
